@@ -470,8 +470,10 @@ def load_known():
 
 
 def matches_known(prop, known, ops, fail):
+    # a property that adopts another property's observables (also_tags) inherits the known findings recorded for it
+    adopted = set(PROPS.get(prop, {}).get("also_tags", []))
     for k in known:
-        if k["prop"] != prop:
+        if k["prop"] != prop and k["prop"] not in adopted:
             continue
         fn = getattr(sigs, k["sig"], None)
         if fn and fn(ops, fail):
